@@ -1045,7 +1045,8 @@ def consume(F, R):
 
 CONFIG_HELPERS = {'do_process_helper': 'no_exception_thrown', 'do_pre_msg_queue_helper': 'no_message_queue', 'do_allow_event_processing_after_transition': 'no_message_queue',
                   'do_post_msg_queue_helper': 'no_message_queue', 'enqueue_event_helper': 'no_message_queue', 'execute_queued_events_helper': 'no_message_queue',
-                  'execute_single_queued_event_helper': 'no_message_queue'}
+                  'execute_single_queued_event_helper': 'no_message_queue', 'do_handle_prio_msg_queue_deferred_queue': 'event_queue_before_deferred_queue'}
+CONFIG_TYPEDEF_ONLY = {'event_queue_before_deferred_queue'}      # looked up with has_xxx on the front-end only, not in `configuration`
 
 @rule('config')
 def config(F, R):
@@ -1055,12 +1056,21 @@ def config(F, R):
     process_event_internal / process_completion_transition contain the try block exactly when no_exception_thrown is not declared."""
     from rules_core import backend_of
     M = Model(F)
-    def declares(fe, opt): return M.declares_option(fe, opt, through_configuration=True)
+    def declares(fe, opt): return M.declares_option(fe, opt, through_configuration=opt not in CONFIG_TYPEDEF_ONLY)
     for f in F.funcs:
         be = backend_of(f)
         if be is None or not f.blocks or f.cls not in ('state_machine', 'state_machine_base'): continue
         m = M.machine_of(F.class_type(f))
         if m is None or F.rec_by_type(m.fe) is None: continue
+        if be in ('back', 'back11') and f.n == 'do_handle_prio_msg_queue_deferred_queue':
+            # the two variants: message queue first (option declared) / deferred queue first (default)
+            first_msgq = any('bool_<true>' in F.strs[p['t']] for p in f.d['params'])
+            order = [n.get('n') for i, n in sorted(f.calls(), key=lambda x: f.linear_nodes().index(x[0]) if x[0] in f.linear_nodes() else 0) if n.get('n') in ('do_post_msg_queue_helper', 'do_handle_deferred')]
+            want_order = ['do_post_msg_queue_helper', 'do_handle_deferred'] if first_msgq else ['do_handle_deferred', 'do_post_msg_queue_helper']
+            R.seen(f); R.anchor('prio-variant:%s:%s' % (be, 'msgq-first' if first_msgq else 'deferred-first'))
+            ok = order == want_order
+            R.ob('C12.config', ok, {'func': f.q, 'order': order})
+            if not ok: R.find('C12.config', f, 'prio-order', 'the %s variant of do_handle_prio_msg_queue_deferred_queue runs %s, required %s' % ('event_queue_before_deferred_queue' if first_msgq else 'default', order, want_order))
         if be in ('back', 'back11'):
             for i, n in f.calls():
                 opt = CONFIG_HELPERS.get(n.get('n'))
